@@ -89,6 +89,27 @@ def run(chk):
         ev = ["ff", tg, [word_bytes(r) + [int(m)] for r, m in pairs]]
         traces.append(dict(ev=[ev]))
         chk.note_case(tg, nontrivial=len(tg) > 1)
+    # the caller's own history: one dictionary object, changed in place between calls (a core added to / removed
+    # from a chip's set, a set replaced, a chip added) - the answer is a function of the argument's CONTENTS
+    for rep in range(chk.pick(60, 400)):
+        t = {k: set(v) for k, v in rng.choice(targets).items()} or {(3, 3): {1}}
+        evs = []
+        for step in range(4):
+            pairs = list(regions.compress_flood_fill_regions(t))
+            tg = [[x, y, sorted(int(c) for c in cs)] for (x, y), cs in sorted(t.items())]
+            evs.append(["ff", tg, [word_bytes(r) + [int(m)] for r, m in pairs]])
+            chk.note_case(("history", step, tg), nontrivial=len(tg) > 1)
+            xy = rng.choice(sorted(t))
+            how = rng.randrange(4)
+            if how == 0:
+                t[xy].add(rng.choice([c for c in range(18) if c not in t[xy]] or [0]))
+            elif how == 1 and len(t[xy]) > 1:
+                t[xy].discard(rng.choice(sorted(t[xy])))
+            elif how == 2:
+                t[xy] = {rng.randrange(18)}
+            else:
+                t[((xy[0] + 1) % 256, xy[1])] = {rng.randrange(18)}
+        traces.append(dict(ev=evs, label="one dictionary changed in place between calls"))
     evs = []
     for _ in range(chk.pick(300, 3000)):
         x, y, lv = rng.randrange(256), rng.randrange(256), rng.randrange(4)
